@@ -3,7 +3,7 @@
    vocabulary: spec/ManifestSpec.v (manifest table in device memory, newest_at, doc_spec,
    honest_reads / conforming_reads = what is assumed about DeviceControl::read, the subject of
    C06 / C07).  [sha1] and [unzip] are oracles: every theorem holds for all of them. *)
-From Cam Require Import XmlFetch ManifestSpec P_C14.
+From Cam Require Import XmlFetch ManifestSpec P_C14 P_C06 P_C07 P_C14b.
 From Cam Require U3VTables.
 
 (* The loop over the manifest entries, on a device that may fail but does not lie: it never panics,
@@ -111,3 +111,43 @@ Theorem C14_absurd_size_refuted :
   exists sha1 unzip xs, fst (genapi sha1 unzip xs) = Panic.
 Proof. exact absurd_size_refuted. Qed.
 Print Assumptions C14_absurd_size_refuted.
+
+(* ---- the two hypotheses about DeviceControl::read are theorems for these classes of states ---------- *)
+(* good_honest: handle open, 12 < max_ack < 2^32, request id in u16, ABRM cached; device memory = segments
+   inside the 64 bit address space separated by unmapped bytes; every transaction may fail (libusb error on
+   send or receive, time-out) or be delayed by pending acknowledges, but an acknowledge, when it comes, is the
+   conforming one.  good_conf: moreover max_cmd >= 24, no transaction fails, fewer pending acknowledges than
+   the retry limit.  Proofs: proofs/P_C14b.v on top of the C06 / C07 lemmas. *)
+Theorem C14_reads_honest : honest_reads good_honest.
+Proof. exact honest_reads_honest. Qed.
+Print Assumptions C14_reads_honest.
+
+Theorem C14_reads_conforming : conforming_reads good_conf.
+Proof. exact conforming_reads_conf. Qed.
+Print Assumptions C14_reads_conforming.
+
+Theorem C14_good_states_exist : good_conf (ex_good_ctl, ex_good_world).
+Proof. exact good_conf_example. Qed.
+Print Assumptions C14_good_states_exist.
+
+(* hence, without any assumption about read: *)
+Theorem C14_returns_file_conforming :
+  forall sha1 unzip x s t es i e text,
+  good_conf s -> manifest_known (x_mt x) (w_segs (snd s)) t ->
+  table_at (w_segs (snd s)) t es -> t + 8 < 2 ^ 64 -> Forall valid_type es ->
+  newest_at es i e -> me_size e < 2 ^ 63 -> doc_spec sha1 unzip lossy (w_segs (snd s)) e text ->
+  exists xs', genapi sha1 unzip (x, s) = (Ok text, xs') /\
+              good_conf (snd xs') /\ w_segs (snd (snd xs')) = w_segs (snd s).
+Proof. intros sha1 unzip x s t es i e text. exact (genapi_returns_file sha1 unzip good_conf x s t es i e text conforming_reads_conf). Qed.
+Print Assumptions C14_returns_file_conforming.
+
+Theorem C14_never_other_document_honest :
+  forall sha1 unzip x s t es r xs',
+  good_honest s -> manifest_known (x_mt x) (w_segs (snd s)) t ->
+  table_at (w_segs (snd s)) t es ->
+  genapi sha1 unzip (x, s) = (r, xs') ->
+  (good_honest (snd xs') /\ w_segs (snd (snd xs')) = w_segs (snd s)) /\
+  (r = Panic -> exists e, In e es /\ 2 ^ 63 <= me_size e) /\
+  (forall text, r = Ok text -> result_spec sha1 unzip lossy (w_segs (snd s)) es text).
+Proof. intros sha1 unzip x s t es r xs'. exact (genapi_sound sha1 unzip good_honest x s t es r xs' honest_reads_honest). Qed.
+Print Assumptions C14_never_other_document_honest.
